@@ -553,15 +553,25 @@ def run_hdrv(suite, tier, seed, workdir, filt, pam=False):
                                stderr=subprocess.PIPE, env=env)
         if r.returncode != 0:
             raise HarnessError("harness %s shard %d exited %d: %s" % (suite, i, r.returncode, r.stderr.decode()[-2000:]))
-        lines = open(lp, errors="replace").read().split("\n")
-        plines = [l for l in lines if l.startswith("@pam ")]
-        if plines:
-            if not pamdrv:
-                raise HarnessError("suite %s emitted @pam lines but was not configured with the PAM harness" % suite)
-            lines = [l for l in lines if not l.startswith("@pam ")] + run_pam_lines(pamdrv, plines, sw)
-        if filt is not None:
-            lines = [l for l in lines if l in filt_set]
-        open(lp, "w").write("\n".join(l for l in lines if l.strip()) + "\n")
+        # stream (thorough runs produce gigabytes): @pam lines are collected, everything else is copied
+        plines = []
+        lp2 = lp + ".2"
+        with open(lp, errors="replace") as fi, open(lp2, "w") as fo:
+            for l in fi:
+                l = l.rstrip("\n")
+                if not l.strip():
+                    continue
+                if l.startswith("@pam "):
+                    plines.append(l)
+                elif filt is None or l in filt_set:
+                    fo.write(l + "\n")
+            if plines:
+                if not pamdrv:
+                    raise HarnessError("suite %s emitted @pam lines but was not configured with the PAM harness" % suite)
+                for l in run_pam_lines(pamdrv, plines, sw):
+                    if l.strip() and (filt is None or l in filt_set):
+                        fo.write(l + "\n")
+        os.replace(lp2, lp)
         drive(lp, op)
         shutil.rmtree(sw, ignore_errors=True)
         return lp, op
@@ -622,10 +632,11 @@ def run_overlay(suite, tier, seed, workdir, filt, nshards=None, race=False):
             env["GORACE"] = "halt_on_error=1 exitcode=66"
         r = subprocess.run([exe, "-test.run", "^TestVerif$", "-test.count=1", "-test.timeout=30m"], cwd=sw, env=env,
                            stdout=subprocess.PIPE, stderr=subprocess.STDOUT, text=True)
-        lines = []
-        if os.path.exists(lp):
-            lines = [l for l in open(lp, errors="replace").read().split("\n") if l.strip()]
+        extra = []
+        if not os.path.exists(lp):
+            open(lp, "w").close()
         if r.returncode != 0:
+            lines = extra
             # a panic / deadlock / test failure in the real code under the harness is an observation
             tail = " | ".join(r.stdout.strip().split("\n")[-12:])[:1500].replace(" => ", " -> ")
             if race and r.returncode == 66:
@@ -633,9 +644,16 @@ def run_overlay(suite, tier, seed, workdir, filt, nshards=None, race=False):
                 lines.append("law.%s.no_data_race shard=%d %s => f" % (suite, i, tail))
             else:
                 lines.append("law.%s.agent_harness_completes shard=%d exit=%d %s => f" % (suite, i, r.returncode, tail))
-        if filt is not None:
-            lines = [l for l in lines if l in filt_set]
-        open(lp, "w").write("\n".join(lines) + ("\n" if lines else ""))
+        if filt is not None or extra:
+            lp2 = lp + ".2"
+            with open(lp, errors="replace") as fi, open(lp2, "w") as fo:
+                for l in fi:
+                    if l.strip() and (filt is None or l.rstrip("\n") in filt_set):
+                        fo.write(l if l.endswith("\n") else l + "\n")
+                for l in extra:
+                    if filt is None or l in filt_set:
+                        fo.write(l + "\n")
+            os.replace(lp2, lp)
         drive(lp, op)
         shutil.rmtree(sw, ignore_errors=True)
         return lp, op
